@@ -19,7 +19,7 @@ from engine.modset import ModSets
 from engine.shape import Keyer
 from engine.facts import AnalysisBroken
 
-UNITS = ['CCL']
+UNITS = ['CCL', 'CGraph']
 OPS = 'ccl::ops::'
 S = 'ccl::semantic::'
 EP = OPS + 'RSEquationProcessor'
@@ -172,6 +172,8 @@ def check(db, rep):
         r4.violation('UpdateExpressions', '%s:%d' % (ue.file, ue.line), 'mentions are not rewritten for every constituent on both sides of the core')
 
     # ------------------------------------------------------------------ r5
+    r9 = rep.rule('r9', 'NO-LOOP-BY-EQUATION: an equation table is refused whenever identifying every removed constituent with its replacement closes a dependency loop - also when no single pair does (the precheck interpreted over small dependency graphs with the real graph code)', 1)
+    equation_loops_evaluated(db, r9)
     r8 = rep.rule('r8', 'TRANSLATION-CLOSED: the translation returned by duplicate elimination maps every erased constituent to a constituent that still exists (interpreted on schemas with chains of duplicates)', 1)
     duplicates_evaluated(db, r8)
     r5 = rep.rule('r5', 'MERGE: MergeWith interpreted on small schemas: every constituent of the second schema is copied and recorded in the returned translation, and each copy carries the source texts with every mention renamed exactly once by the complete map', 1)
@@ -548,3 +550,146 @@ def duplicates_evaluated(db, rule):
         rule.violation('DeleteDuplicates:evaluated', '%s:%d' % (f.file, f.line), bad)
     else:
         rule.ok('DeleteDuplicates:evaluated', '%d schemas with chains of duplicates: every erased constituent is mapped to a surviving one' % len(cases), '%s:%d' % (f.file, f.line))
+
+
+# ---------------------------------------------------------------------------------------------- r9: equation tables and dependency loops
+def equation_loops_evaluated(db, rule):
+    """RSEquationProcessor::ResolveCstAndPrecheck interpreted on small dependency graphs (the real CGraph code underneath) and tables of one
+    or two pairs of like constituents. After an equation key -> value the key is removed and every mention of it denotes the value, so the
+    table must be refused exactly when identifying each key with its value closes a dependency loop (or a trivial condition fails:
+    key = value, a value that is also a key)."""
+    import itertools
+    from engine.evalmini import Interp, Obj, OutOfFragment, NOT_HANDLED
+    G = 'ccl::graph::CGraph'
+    f = db.fn(EP + '::ResolveCstAndPrecheck', required=False)
+    vctor = [g for g in db.by_name.get(G + '::Vertex::Vertex', []) if len(g.rec.get('params', [])) == 1 and 'Vertex' not in g.rec['params'][0]['type']]
+    if f is None or len(vctor) != 1 or db.fn(G + '::AddConnection', required=False) is None:
+        rule.broken('anchor vanished: RSEquationProcessor::ResolveCstAndPrecheck / CGraph (is the CGraph unit loaded?)')
+        return
+
+    def merged_has_loop(nodes, edges, table):
+        img = lambda x: table.get(x, x)
+        es = {(img(a), b) for a, b in edges if b not in table}        # the definition of a removed constituent is dropped
+        alive = [n for n in nodes if n not in table]
+        reach = {n: set() for n in alive}
+        for a, b in es:
+            if a in reach and b in reach:
+                reach[a].add(b)
+        changed = True
+        while changed:
+            changed = False
+            for n in alive:
+                new = set(reach[n])
+                for m in list(reach[n]):
+                    new |= reach[m]
+                if new != reach[n]:
+                    reach[n] = new
+                    changed = True
+        return any(v in reach.get(v, ()) for v in set(table.values()))
+
+    def run(nodes, edges, table):
+        def on_call(it, fn, n, env):
+            cs = n.get('cs') or ''
+            last = cs.split('::')[-1]
+            Sx = fn.stmts
+            ev = lambda sid: it.eval(fn, Sx[sid], env)
+            a = lambda: [ev(x) for x in n.get('args', [])]
+            if n['k'] == 'CXXMemberCallExpr' and cs == 'std::vector::emplace_back' and 'CGraph::Vertex' in (n.get('callee') or '') and len(n.get('args', [])) == 1 and 'obj' in n:
+                o = ev(n['obj'])
+                v = Obj(__cls__=G + '::Vertex')
+                it.construct(vctor[0], v, [ev(n['args'][0])])
+                o.append(v)
+                return v
+            if n['k'] in ('CXXConstructExpr', 'CXXTemporaryObjectExpr') and (n.get('cls') or '') == G:
+                return it.default_construct(G)
+            if cs.startswith(G + '::'):
+                return NOT_HANDLED                              # the graph itself is interpreted
+            if last in ('RSLang', 'Texts', 'Core') and cs.startswith(S):
+                return Obj(__cls__='facade', which=last)
+            if last == 'Graph':
+                return graph
+            if last in ('TermGraph', 'DefGraph'):
+                return empty_graph
+            if last == 'Contains' and cs.startswith(S):
+                return a()[0] in nodes
+            if last == 'GetRS':
+                u = a()[0]
+                return Obj(uid=u, alias=('D%d' % u).encode(), type=7)
+            if last == 'GetParse':
+                return Obj(exprType=Obj(__kind__='typ'))
+            if cs.endswith('optional::has_value'):
+                return True
+            if last in ('IsRSObject',):
+                return True
+            if last in ('IsBaseSet', 'IsBaseNotion'):
+                return False
+            if 'EquationOptions' in cs or 'EntityTranslation' in cs or (n.get('cls') or '').endswith('EntityTranslation'):
+                if n['k'] in ('CXXConstructExpr', 'CXXTemporaryObjectExpr'):
+                    return Obj(__kind__='etr', m={})
+                o = ev(n['obj']) if 'obj' in n else (ev(n['args'][0]) if n.get('args') else None)
+                o = o[1] if isinstance(o, tuple) and len(o) == 2 and o[0] == 'ptr' else o
+                m = o['m'] if isinstance(o, Obj) and 'm' in o else o
+                if last == 'ContainsKey':
+                    return a()[-1] in m
+                if last == 'ContainsValue':
+                    return a()[-1] in m.values()
+                if last == 'Insert':
+                    k_, v_ = a()[-2:]
+                    m[k_] = v_
+                    return None
+                if last in ('begin', 'end') or n.get('op') == '()':
+                    if n.get('op') == '()':
+                        return m[a()[-1]]
+            if n['k'] in ('CXXConstructExpr', 'CXXTemporaryObjectExpr') and (n.get('cls') or '') == G:
+                return it.default_construct(G)
+            return NOT_HANDLED
+        it = Interp(db, on_call=on_call, max_steps=2000000)
+
+        def on_range(it_, v):
+            if isinstance(v, Obj) and v.get('__kind__') == 'etr':
+                return [Obj(first=k_, second=v_) for k_, v_ in v['m'].items()]
+            if isinstance(v, tuple) and len(v) == 2 and v[0] == 'ptr':
+                return on_range(it_, v[1])
+            if isinstance(v, Obj) and v.get('__cls__') == 'facade':
+                return list(nodes)
+            return v
+        it.on_range = on_range
+        graph = it.default_construct(G)
+        empty_graph = it.default_construct(G)
+        for u in nodes:
+            it.call(db.fn(G + '::AddItem'), [u], graph)
+        for a_, b_ in edges:
+            it.call(db.fn(G + '::AddConnection'), [a_, b_], graph)
+        this = Obj(__cls__=EP, schema=Obj(__cls__='facade', which='form'), equations=Obj(__kind__='etr', m=dict(table)), nameSubstitutes={}, translation=Obj(__kind__='etr', m={}))
+        return bool(it.call(f, [], this))
+    nodes = [1, 2, 3, 4]
+    graphs = [
+        [(1, 2), (3, 4)], [(1, 2), (2, 3)], [(2, 1), (4, 3)], [(1, 3), (2, 4)], [(3, 2), (4, 1)], [(1, 2), (2, 3), (3, 4)], [], [(1, 2), (3, 2)], [(2, 3), (4, 1)], [(2, 3), (1, 4), (4, 2)],
+    ]
+    bad, cases, accepted = None, 0, 0
+    try:
+        for edges in graphs:
+            for r_ in (1, 2):
+                for keys in itertools.permutations(nodes, r_):
+                    for vals in itertools.product(nodes, repeat=r_):
+                        table = dict(zip(keys, vals))
+                        if any(k_ == v_ for k_, v_ in table.items()) or any(v_ in table for v_ in table.values()):
+                            continue                     # trivial refusals are decided by r2
+                        cases += 1
+                        want = not merged_has_loop(nodes, edges, table)
+                        got = run(nodes, edges, table)
+                        accepted += 1 if got else 0
+                        if got and not want and bad is None:       # a refusal of a loop-free table is conservative, not a defect
+                            dep = ', '.join('D%d uses D%d' % (b_, a_) for a_, b_ in edges) or 'no dependencies'
+                            tb = ', '.join('D%d -> D%d' % kv for kv in table.items())
+                            bad = ('with %s the table {%s} is %s; identifying each removed constituent with its replacement %s a dependency loop' % (
+                                dep, tb, 'accepted' if got else 'refused', 'closes' if not want else 'does not close'))
+    except OutOfFragment as e:
+        rule.broken('ResolveCstAndPrecheck outside the evaluable fragment: %s' % e)
+        return
+    if bad:
+        rule.violation('equation-table-loops', '%s:%d' % (f.file, f.line), bad)
+    elif not accepted:
+        rule.broken('the interpreted precheck accepts none of %d tables: the harness no longer reflects the code' % cases)
+    else:
+        rule.ok('equation-table-loops', '%d (dependency graph, table) cases, %d accepted: no accepted table closes a dependency loop' % (cases, accepted), '%s:%d' % (f.file, f.line))
